@@ -395,8 +395,8 @@ def run(tier):
                 break
     except OSError:
         pass
-    npools = 220 if tier == 'quick' else 3200
-    rounds = 1 if tier == 'quick' else 8
+    npools = 400 if tier == 'quick' else 6400
+    rounds = 1 if tier == 'quick' else 16
     COVER = pg.Cover()
     stats = collections.Counter()
     seen_classes = collections.Counter()
